@@ -18,10 +18,10 @@
 enum { K_AGG, K_CHUNK, K_TSSYNC, K_TSCHECK, K_TSALIGN_SYNC, K_TSALIGN_CHECK, K_N };
 static const char *const kname[] = { "aggregate", "chunk_stream", "ts_sync", "ts_check", "ts_align(sync)", "ts_align(check)" };
 
-enum { CL_AGG, CL_CHUNK, CL_TSSYNC, CL_TSCHECK, CL_TSALIGN, CL_CUT_INSIDE_UNIT, CL_EMPTY_BUF, CL_ONEBYTE_BUF, CL_SEGMENTED, CL_GARBAGE, CL_FALSE_SYNC, CL_TAIL_DROPPED, CL_CUTTINGS_DIFFER, CL_RELEASE_MID };
+enum { CL_AGG, CL_CHUNK, CL_TSSYNC, CL_TSCHECK, CL_TSALIGN, CL_CUT_INSIDE_UNIT, CL_EMPTY_BUF, CL_ONEBYTE_BUF, CL_SEGMENTED, CL_GARBAGE, CL_FALSE_SYNC, CL_TAIL_DROPPED, CL_CUTTINGS_DIFFER, CL_RELEASE_MID, CL_AGG_FDSIZE };
 static const char *const class_names[] = { "aggregate", "chunk_stream", "ts_sync", "ts_check", "ts_align", "buffer_boundary_inside_output_unit",
     "empty_buffer", "one_byte_buffer", "segmented_buffer", "garbage_before_or_between_packets", "false_sync_in_payload", "unaligned_tail_dropped",
-    "cuttings_differ", "release_before_end_of_stream", NULL };
+    "cuttings_differ", "release_before_end_of_stream", "aggregate_flow_def_announces_block_size", NULL };
 
 #define MAXSTREAM 4096
 #define MAXUNITS (MAXSTREAM + 32)
@@ -39,6 +39,7 @@ struct ctx {
     int slen;
     int P, N;               /* packet size, sync count */
     int mtu, align;         /* agg MTU / chunk mtu + align */
+    int fdsize;             /* agg: block size announced in the flow definition (0: none) */
     int ret;
     uint32_t classes;
 };
@@ -157,6 +158,9 @@ static void run_pipe(struct ctx *c, const struct cutting *cut, struct units *out
     }
     if (!ubase_check(err)) { FAIL("config", "%s refused a valid configuration (%d)", kname[c->kind], err); }
     struct uref *fd = pfx_flow_def_block(pfx, c->kind == K_TSALIGN_CHECK ? "mpegtsaligned." : "foo.");
+    /* aggregate anticipates the next packet with the block size announced by the flow definition, when there is one;
+     * the packets themselves may be smaller or larger than announced */
+    if (fd != NULL && c->kind == K_AGG && c->fdsize > 0) uref_block_flow_set_size(fd, c->fdsize);
     err = upipe_set_flow_def(p, fd);
     uref_free(fd);
     if (!ubase_check(err)) FAIL("flowdef", "%s refused a block flow definition (%d)", kname[c->kind], err);
@@ -198,6 +202,7 @@ static int run(const uint8_t *tp_, size_t len, struct vp_report *rep, unsigned f
     static const int aligns[] = { 1, 2, 4, 3, 7, 16 };
     c->align = aligns[tp_u8(&c->t) % 6];
     if (c->align >= c->mtu) c->align = 1;
+    { unsigned q = (cfgb / (K_N * 2)) % 4; c->fdsize = q == 0 ? 0 : q == 1 ? 1 : q == 2 ? (c->mtu + 1) / 2 : c->mtu; if (c->kind == K_AGG && c->fdsize) c->classes |= 1u << CL_AGG_FDSIZE; }
     h = vp_hash_mix(h, cfgb); h = vp_hash_mix(h, cb); h = vp_hash_mix(h, c->align);
     if (c->kind >= K_TSALIGN_SYNC) { c->P = 188; c->N = 2; }   /* ts_align exposes neither setter: defaults */
     bool is_ts = c->kind >= K_TSSYNC;
